@@ -370,6 +370,31 @@ def resource_catalogue():
         for bn_, open_, close_ in (("paren", "(", ")"), ("list", "[", "]")):
             one("large_%s_nest_100k_after_string_%s" % (bn_, tn_), "x = " + lit_ + ' + "z"\ny = ' + open_ * 100000 + "1" + close_ * 100000 + "\n")
         one("large_block_nest_60k_after_string_%s" % tn_, "x = " + lit_ + ' + "z"\n' + "if true {" * 60000 + "}" * 60000 + "\n")
+    # errors the compiler only finds while GENERATING code (`-true`, `-false` pass type checking as bool): in every
+    # header / operand position, nested in every construct (round 7: clean-up paths that run only then)
+    holes_ = [("from_end", "from 0 to wq(%s) {\n print 1\n}"), ("from_start", "from wq(%s) to 3 {\n print 1\n}"),
+              ("from_step", "from 0 to 3 step wq(%s) {\n print 1\n}"), ("from_named_end", "from 0 to wq(%s), iq {\n print iq\n}"),
+              ("from_named_step", "from 0 to 9 step wq(%s), iq {\n print iq\n}"), ("while_cond", "while wq(%s) > 0 {\n print 1\n}"),
+              ("if_cond", "if wq(%s) > 0 {\n print 1\n}"), ("elseif_cond", "if vq > 5 {\n print 1\n} else if wq(%s) > 0 {\n print 2\n}"),
+              ("print", "print %s"), ("assign", "zq = %s"), ("call_arg", "zq = wq(%s)"), ("list_elem", "zq = [1, wq(%s)]"),
+              ("index", "zq = lq[wq(%s)]"), ("index_assign", "lq[wq(%s)] = 1"), ("opassign", "vq += wq(%s)"),
+              ("assert", "assert wq(%s) == 1"), ("return", "return wq(%s)"), ("map_value", "zq = map[int, int] {\n 1: wq(%s)\n}"),
+              ("field_assign", "oq.f = wq(%s)"), ("method_arg", "zq = oq.m(wq(%s))"), ("or_fallback", "zq = (nq) or wq(%s)")]
+    wraps_ = [("top", "%s"), ("in_from", "from 0 to 3 {\n%s\n}"), ("in_named_from", "from 0 to 3, jq {\n%s\n}"), ("in_while", "while vq < 0 {\n%s\n}"),
+              ("in_if", "if vq > 0 {\n%s\n}"), ("in_else", "if vq > 0 {\n print 0\n} else {\n%s\n}"),
+              ("in_fn", "gq = fn() -> int {\n%s\n return 0\n}"), ("in_from_in_from", "from 0 to 2 {\n from 0 to 2 {\n%s\n }\n}"),
+              ("in_method", "class Cq {\n f: int\n constructor(self) {\n  self.f = 1\n }\n fn run(self) -> int {\n%s\n  return 0\n }\n}")]
+    pre_ = ("wq = fn(b: bool) -> int {\n return 1\n}\nvq = 1\nlq: [int...] = [1, 2]\nnq: int? = nil\nclass Oq {\n f: int\n constructor(self) {\n  self.f = 1\n }\n"
+            " fn m(self, a: int) -> int {\n  return a\n }\n}\noq = Oq()\n")
+    for hn_, ht_ in holes_:
+        for wn_, wt_ in wraps_:
+            if hn_ == "return" and wn_ not in ("in_fn", "in_method"):
+                continue
+            for lit_ in ("-true", "-false"):
+                if lit_ == "-false" and (hash((hn_, wn_)) % 3):
+                    continue
+                body_ = ht_ % (lit_ if hn_ in ("print", "assign") else lit_)
+                one("codegen_error_%s_%s_%s" % (hn_, wn_, lit_[1:]), pre_ + (wt_ % body_) + "\n")
     # string literals the scanner of the nesting guard and the grammar must delimit identically
     for tn_, lit_ in (("backslash_backslash_quote", '"\\\\" + "'), ("escaped_quote", '"a\\"b" + "'), ("hash_in_string", '"#" + "'),
                       ("triple_hash_in_string", '"###" + "'), ("backslash_n", '"\\n" + "'), ("lone_backslash_end", '"a\\\\"')):
